@@ -234,8 +234,67 @@ type jobj struct {
 	md protoreflect.MessageDescriptor
 }
 
-// objects lists the object nodes that the decoder will read as plain messages, with their types.
-func objects(n *jn, md protoreflect.MessageDescriptor, out *[]jobj) {
+// anyObjectJSON: the JSON form of google.protobuf.Any, decided on the token tree alone: the object names the field
+// type_url with every "@type" member; for a payload type with a special JSON form the payload is the "value" member
+// (named twice = Any.value set twice; a payload of type Any is another Any object), otherwise the remaining members
+// are the fields of the payload message.
+func anyObjectJSON(n *jn, out *[]jobj, dup *bool) {
+	if n.kind != '{' {
+		return
+	}
+	var urls []*jn
+	nval := 0
+	for i, k := range n.keys {
+		switch k {
+		case "@type":
+			urls = append(urls, n.elems[i])
+		case "value":
+			nval++
+		}
+	}
+	if len(urls) > 1 {
+		*dup = true
+		return
+	}
+	if len(urls) == 0 || urls[0].kind != 's' {
+		return
+	}
+	mt, err := protoregistry.GlobalTypes.FindMessageByURL(urls[0].lit)
+	if err != nil {
+		return
+	}
+	md := mt.Descriptor()
+	if isWKT(md) {
+		if nval > 1 {
+			*dup = true
+			return
+		}
+		if md.FullName() == "google.protobuf.Any" {
+			for i, k := range n.keys {
+				if k == "value" {
+					anyObjectJSON(n.elems[i], out, dup)
+				}
+			}
+		}
+		return
+	}
+	rest := &jn{kind: '{'}
+	for i, k := range n.keys {
+		if k != "@type" {
+			rest.keys = append(rest.keys, k)
+			rest.elems = append(rest.elems, n.elems[i])
+		}
+	}
+	objects(rest, md, out, dup)
+}
+
+// objects lists the object nodes that the decoder will read as plain messages, with their types
+// (and looks into google.protobuf.Any objects: anyObjectJSON).
+func objects(n *jn, md protoreflect.MessageDescriptor, out *[]jobj, dup *bool) {
+	if md.FullName() == "google.protobuf.Any" {
+		anyObjectJSON(n, out, dup)
+		return
+	}
 	if n.kind != '{' || isWKT(md) {
 		return
 	}
@@ -250,18 +309,18 @@ func objects(n *jn, md protoreflect.MessageDescriptor, out *[]jobj) {
 		case fd.IsMap():
 			if sub := fd.MapValue().Message(); sub != nil && v.kind == '{' {
 				for _, e := range v.elems {
-					objects(e, sub, out)
+					objects(e, sub, out, dup)
 				}
 			}
 		case fd.IsList():
 			if sub := fd.Message(); sub != nil && v.kind == '[' {
 				for _, e := range v.elems {
-					objects(e, sub, out)
+					objects(e, sub, out, dup)
 				}
 			}
 		default:
 			if sub := fd.Message(); sub != nil {
-				objects(v, sub, out)
+				objects(v, sub, out, dup)
 			}
 		}
 	}
@@ -271,7 +330,11 @@ func objects(n *jn, md protoreflect.MessageDescriptor, out *[]jobj) {
 // name) or two members of one oneof (JSON null does not set a field unless its type is Value/NullValue)
 func jsonHasDup(n *jn, md protoreflect.MessageDescriptor) bool {
 	var objs []jobj
-	objects(n, md, &objs)
+	dup := false
+	objects(n, md, &objs, &dup)
+	if dup {
+		return true
+	}
 	for _, o := range objs {
 		seen := map[protoreflect.FieldNumber]bool{}
 		oneofs := map[int]bool{}
@@ -427,7 +490,8 @@ func altNames(fd protoreflect.FieldDescriptor) []string {
 func mutateJSON(c *C, t *jn, md protoreflect.MessageDescriptor) string {
 	r := c.Rand
 	var objs []jobj
-	objects(t, md, &objs)
+	var ignored bool
+	objects(t, md, &objs, &ignored)
 	if len(objs) == 0 {
 		return "none"
 	}
@@ -878,8 +942,40 @@ type tobj struct {
 	md protoreflect.MessageDescriptor
 }
 
-func tobjects(fs *[]*tfield, md protoreflect.MessageDescriptor, out *[]tobj) {
+// tobjects lists the message bodies with their types.  google.protobuf.Any has its own spelling rules, decided on the
+// token tree alone: `type_url:` names Any.type_url, `value:` names Any.value, the expanded form `[url] {…}` names BOTH
+// (and its body is a message of the type the URL resolves to); a field named twice sets *dup.  So does a map entry
+// that names `key` or `value` twice.
+func tobjects(fs *[]*tfield, md protoreflect.MessageDescriptor, out *[]tobj, dup *bool) {
 	if md.FullName() == "google.protobuf.Any" {
+		nt, nv := 0, 0
+		seq := ""
+		for _, f := range *fs {
+			switch {
+			case f.nameKind == 'i' && f.name == "type_url":
+				nt++
+				seq += "T"
+			case f.nameKind == 'i' && f.name == "value":
+				nv++
+				seq += "V"
+			case f.nameKind == 't':
+				nt++
+				nv++
+				seq += "E"
+				if f.val.kind == '{' {
+					if mt, err := protoregistry.GlobalTypes.FindMessageByURL(f.name); err == nil {
+						tobjects(&f.val.fields, mt.Descriptor(), out, dup)
+					}
+				}
+			}
+		}
+		if seq == "VE" && exceptValueThenExpanded {
+			// classifier of the finding prototext-any-value-then-expanded-accepted: `value: … [url] {…}` and nothing else
+			return
+		}
+		if nt > 1 || nv > 1 {
+			*dup = true
+		}
 		return
 	}
 	*out = append(*out, tobj{fs, md})
@@ -900,26 +996,58 @@ func tobjects(fs *[]*tfield, md protoreflect.MessageDescriptor, out *[]tobj) {
 			}
 			switch {
 			case fd.IsMap():
+				nk, nv := 0, 0
+				for _, ef := range v.fields {
+					if ef.nameKind == 'i' && ef.name == "key" {
+						nk++
+					}
+					if ef.nameKind == 'i' && ef.name == "value" {
+						nv++
+					}
+				}
+				if nk > 1 || nv > 1 {
+					*dup = true
+				}
 				if sub := fd.MapValue().Message(); sub != nil {
 					for _, ef := range v.fields {
 						if ef.nameKind == 'i' && ef.name == "value" && ef.val.kind == '{' {
-							tobjects(&ef.val.fields, sub, out)
+							tobjects(&ef.val.fields, sub, out, dup)
 						}
 					}
 				}
 			default:
 				if sub := fd.Message(); sub != nil {
-					tobjects(&v.fields, sub, out)
+					tobjects(&v.fields, sub, out, dup)
 				}
 			}
 		}
 	}
 }
 
+// exceptValueThenExpanded makes the oracle overlook the one pattern of the known finding sigAnyVE (classifier only)
+var exceptValueThenExpanded bool
+
+const sigAnyVE = "prototext-any-value-then-expanded-accepted"
+
+// textDupSig: "" unless every duplicate of the document is an Any body of the form `value: … [url] {…}`
+func textDupSig(fs []*tfield, md protoreflect.MessageDescriptor) string {
+	exceptValueThenExpanded = true
+	other := textHasDup(fs, md)
+	exceptValueThenExpanded = false
+	if !other {
+		return sigAnyVE
+	}
+	return ""
+}
+
 // oracle: a singular field named twice or two members of a oneof in one message
 func textHasDup(fs []*tfield, md protoreflect.MessageDescriptor) bool {
 	var objs []tobj
-	tobjects(&fs, md, &objs)
+	dup := false
+	tobjects(&fs, md, &objs, &dup)
+	if dup {
+		return true
+	}
 	for _, o := range objs {
 		seen := map[protoreflect.FieldNumber]bool{}
 		oneofs := map[int]bool{}
@@ -1078,7 +1206,8 @@ func randTextValue(c *C, depth int) *tv {
 func mutateText(c *C, fs *[]*tfield, md protoreflect.MessageDescriptor) string {
 	r := c.Rand
 	var objs []tobj
-	tobjects(fs, md, &objs)
+	var ignored bool
+	tobjects(fs, md, &objs, &ignored)
 	if len(objs) == 0 {
 		return "none"
 	}
@@ -1224,7 +1353,7 @@ func feedText(c *C, r *Root, doc []byte, limit int, discard bool, note string) {
 		md := r.MT.Descriptor()
 		if textHasDup(fs, md) {
 			c.Hist("text-oracle:dup")
-			c.Check(classes[0] != "ok", "prototext.Unmarshal accepts a document that sets a non-repeated field twice or two members of a oneof", in, "")
+			checkSig(c, classes[0] != "ok", "prototext.Unmarshal accepts a document that sets a non-repeated field twice or two members of a oneof", in, textDupSig(fs, md))
 		}
 		known := textDepth(fs, md)
 		braces := textBraces(fs)
@@ -1669,6 +1798,8 @@ func runC26(c *C) {
 	}
 	intsStream(c)
 	skipRegression(c, rs)
+	anyTextStream(c, rs)
+	anyJSONStream(c, rs)
 	depthStreams(c, rs)
 	n := c.N(13, 1200)
 	limits := []int{0, 0, 0, 1, 2, 3, 4}
